@@ -327,3 +327,28 @@ PROPS["C01"] = dict(
         seeded("delivery-secure", "e2e", "^TestC01Secure$", 25 if tier == "quick" else 600, 8 if tier == "quick" else 16, timeout=3400),
     ],
 )
+
+PROPS["C12"] = dict(
+    title="The client survives hostile servers",
+    pkg="e2e",
+    rule=("rapid-generated (client configuration, API program, scripted server): protocol automatic/UDP/TCP/multicast, plain or TLS, credentials "
+          "in the URL or not, back channels, AnyPortEnable, 1..3 medias; a program Describe -> Setup(all or one by one) -> Play, or Announce -> "
+          "SetupAll -> Record -> write, followed by 0..6 further calls (calls repeated after failures, idle periods that reach keep-alives and "
+          "the UDP->TCP switch, Close); a server that answers correctly except for 1..4 rules, each bound to one occurrence (or every occurrence) "
+          "of a request method: status codes, redirects (self/other path/bad/empty/missing/two/downgrade/upgrade/refused/http), CSeq missing/wrong/"
+          "duplicated/non-numeric, no answer, no answer plus chatter (stale responses, server requests, frames every 40..300 ms), delays around "
+          "the timeout, close before/after/mid-response (FIN or RST or stall), garbage, header deleted/duplicated/replaced from per-header "
+          "dictionaries (33 Transport answers, Session, Content-Base, Content-Type, KeyMgmt, RTP-Info ...), wrong Content-Length, 22 hostile SDPs, "
+          "control attributes at session or media level from a dictionary or a generated string, injected frames and server requests, 401 with "
+          "11 kinds of challenge, connection-level silence/close/banner. Oracle: every API call returns within (requests+connections seen by the "
+          "server during the call + 2) x (read+write timeout) + 1.5 s and causes at most 64 requests; no panic (a process death is attributed to "
+          "the journalled case); Close and Wait return; 3 s after Close no goroutine of the library created during the case is left and the "
+          "number of open sockets is back to what it was. Non-trivial: a rule applies at or after the DESCRIBE/ANNOUNCE step. Distinct by case hash."),
+    assumptions=[
+        "timeouts are 400 ms; a latency verdict is withheld (counted) when a 5 ms ticker in the same process was late by more than 250 ms during the call",
+        "the scripted server runs in the test process; it is closed before the goroutine and socket census",
+    ],
+    jobs=lambda tier: [
+        seeded("hostile", "e2e", "^TestC12$", 120 if tier == "quick" else 2000, 16, timeout=900 if tier == "quick" else 3400, journal=True),
+    ],
+)
